@@ -659,6 +659,7 @@ def check(ctx):
     big = ["UniformInt(10^15, 10^15+5)", "UniformInt(-10^15-5, -10^15)", "UniformInt(2^53, 2^53+2)", "UniformInt(10^18, 10^18+1)",
            "UniformInt(-7, 10^9)", "UniformInt(10^9, 10^9+9)", "UniformInt(0, 10^18)", "UniformInt(3, 3)", "UniformInt(1, 6)",
            "Bernoulli(0)", "Bernoulli(1)", "Binomial(20, 0)", "Binomial(20, 1)", "Binomial(40, 1/2)", "Geometric(1)", "Geometric(1/1000)",
+           "Binomial(2000, 0.0005)", "Binomial(600, 1/3000)", "Binomial(1000, 0.999)", "Binomial(3000, 1/2)", "Poisson(60)",
            "Geometric(0.999)", "Poisson(1)", "Poisson(12)", "Exponential(1/1000)", "Exponential(1000)", "Uniform(10^15, 10^15+1)",
            "Uniform(-1/1000, 1/1000)", "Uniform(5, 5)", "Uniform(-10^6, 10^6)", "Gaussian(0, 1/1000)", "Gaussian(10^6, 1)"]
     nbig = ctx.n(1500, 30000)
